@@ -1330,7 +1330,7 @@ Definition arm_variant_record (s : pstate) : pstate :=
     let s := finish_logical_line (next_token s) in
     let s := R (C_stmt_block (ctx CT_VariantDeclarationBlock false P_rparen (L 1)) SK_VariantRecord) s in
     pop_ctx s
-  else s      (* sic: returns without popping the VariantRecord context *).
+  else pop_ctx s      (* since the repair of F39 the early return pops the VariantRecord context too *).
 
 Definition arm_case_arm (parent : nat * nat) (s : pstate) : pstate :=
   let lvl := CL_Parent parent 1%N in
